@@ -1,7 +1,7 @@
 // seamgen inventories every source of nondeterminism in the custom packages of /repo (range over a map, time.Now,
 // math/rand, crypto/rand, tendermint libs/rand, go statements, select) and generates rewritten copies plus a
 // `go build -overlay` JSON in which map ranges iterate verifrt.Keys(m) (order chosen by the explorer), time.Now()
-// becomes verifrt.Now() and rand.NewRand() becomes verifrt.NewTMRand(). /repo itself is not modified.
+// becomes verifrt.Now() (time.Since/time.Until likewise) and rand.NewRand() becomes verifrt.NewTMRand(). /repo itself is not modified.
 package main
 
 import (
@@ -93,6 +93,11 @@ func main() {
 					case path == "time" && sel.Sel.Name == "Now":
 						sites = append(sites, Site{"time.Now", p.Fset.Position(x.Pos()).String(), ""})
 						x.Fun = &ast.SelectorExpr{X: ast.NewIdent("verifrt"), Sel: ast.NewIdent("Now")}
+						changed, needImport = true, true
+					case path == "time" && (sel.Sel.Name == "Since" || sel.Sel.Name == "Until"):
+						// time.Since(t) / time.Until(t) read the wall clock too
+						sites = append(sites, Site{"time." + sel.Sel.Name, p.Fset.Position(x.Pos()).String(), ""})
+						x.Fun = &ast.SelectorExpr{X: ast.NewIdent("verifrt"), Sel: ast.NewIdent(sel.Sel.Name)}
 						changed, needImport = true, true
 					case strings.HasSuffix(path, "tendermint/libs/rand") && sel.Sel.Name == "NewRand":
 						sites = append(sites, Site{"tmrand.NewRand", p.Fset.Position(x.Pos()).String(), ""})
